@@ -107,7 +107,9 @@ def rule_zip(ctx):
                 res.inst(ikey, t["sp"]["file"], t["sp"]["line"], "violation")
                 res.violate(ikey, "zip of two sequences whose lengths are not compared first: a wrong number of arguments/binders/type "
                             "arguments is silently truncated instead of rejected", t["sp"]["file"], t["sp"]["line"])
-    res.require_floor(4)
+    # the universe of this rule is "every zip in the checker": fewer zips than today is not a loss of anchors, no zip at all
+    # leaves nothing to truncate.  The extractor's liveness for this crate is established by the other rules of C15.
+    res.notes.append("zips examined: %d (4 on the pinned tree)" % n)
     # is_instance itself must compare lengths
     fi = Fn(fx.fn("fun::syntax::types::TypeArgs::is_instance"))
     if _len_guards(fi):
@@ -172,36 +174,66 @@ def rule_nodup(ctx):
                      "Case::check and New::check call context_names.no_dups before add_types, build_symbol_table calls "
                      "check_type_params (which calls no_dups per template); each result is propagated with `?`")
     specs = [
-        ("fun::syntax::declarations::def::Def::check", "no_dups", None),
-        ("<fun::syntax::terms::case::Case as fun::typing::check::Check>::check", "no_dups", "add_types"),
-        ("<fun::syntax::terms::new::New as fun::typing::check::Check>::check", "no_dups", "add_types"),
-        ("fun::typing::symbol_table::build_symbol_table", "check_type_params", None),
-        ("fun::typing::symbol_table::SymbolTable::check_type_params", "no_dups", None),
+        ("fun::syntax::declarations::def::Def::check", "no_dups"),
+        ("<fun::syntax::terms::case::Case as fun::typing::check::Check>::check", "no_dups"),
+        ("<fun::syntax::terms::new::New as fun::typing::check::Check>::check", "no_dups"),
+        ("fun::typing::symbol_table::build_symbol_table", "check_type_params"),
+        ("fun::typing::symbol_table::SymbolTable::check_type_params", "no_dups"),
     ]
-    for key, must, before in specs:
-        fn = Fn(fx.fn(key))
-        ms = [(bi, t) for bi, t in fn.calls() if t.get("callee_name") == must]
+    fns = {}
+
+    def fn_of(key):
+        if key not in fns:
+            fns[key] = Fn(fx.fns[key])
+        return fns[key]
+
+    def propagated(fn, t):
+        return any(u["kind"] == "arg" and u["term"].get("callee_name") == "branch" for u in fn.uses().get(t["dest"]["l"], []))
+
+    def calls_propagated(key, must, depth, seen):
+        """`key` calls `must` and propagates its error with `?` - directly, or through a helper (or closure) whose own result it propagates"""
+        fn = fn_of(key)
+        for bi, t in fn.calls():
+            if t.get("callee_name") == must and propagated(fn, t):
+                return True
+        for k2 in fx.fns:
+            if k2.startswith(key + "::{closure") and k2 not in seen and calls_propagated(k2, must, depth, seen | {k2}):
+                return True
+        if depth > 0:
+            for bi, t in fn.calls():
+                k2 = t.get("resolved_key") or (t.get("callee_key") if not t.get("callee_trait") else None)
+                if k2 in fx.fns and fx.fns[k2]["crate"] == "fun" and k2 not in seen and fx.fns[k2].get("impl_trait") != "fun::typing::check::Check" \
+                        and propagated(fn, t) and calls_propagated(k2, must, depth - 1, seen | {k2}):
+                    return True
+        return False
+    for key, must in specs:
+        fn = fn_of(fx.fn(key)["key"])
         ikey = "%s:%s" % (key, must)
-        if not ms:
-            res.inst(ikey, fn.file, fn.line, "violation")
-            res.violate(ikey, "%s no longer calls %s: duplicate binders/parameters are accepted" % (key.split(" as ")[0].lstrip("<"), must), fn.file, fn.line)
-            continue
-        prop = False
-        for bi, t in ms:
-            for u in fn.uses().get(t["dest"]["l"], []):
-                if u["kind"] == "arg" and u["term"].get("callee_name") == "branch":
-                    prop = True
-        ok = prop
-        if before:
-            bs = [bi for bi, t in fn.calls() if t.get("callee_name") == before]
-            if not bs:
-                raise AnalysisError("R-NODUP: %s has no call to %s" % (key, before))
-            ok = ok and all(any(fn.dominates(mb, b) and mb != b for mb, _ in ms) for b in bs)
-        if ok:
+        if calls_propagated(key, must, 2, frozenset([key])):
             res.inst(ikey, fn.file, fn.line, "ok")
         else:
             res.inst(ikey, fn.file, fn.line, "violation")
-            res.violate(ikey, "%s: %s is %s" % (key.split(" as ")[0].lstrip("<"), must, "not propagated with `?`" if not prop else "not performed before " + before), fn.file, fn.line)
+            res.violate(ikey, "%s no longer calls %s (and propagates its error with `?`), neither itself nor through a helper: duplicate "
+                        "binders/parameters are accepted" % (key.split(" as ")[0].lstrip("<"), must), fn.file, fn.line)
+    # wherever binder names are given their types (add_types), the duplicate check on the same names comes first
+    n_add = 0
+    for k, f in zone_fns(fx):
+        fn = fn_of(k)
+        adds = [(bi, t) for bi, t in fn.calls() if t.get("callee_name") == "add_types" and (t.get("callee_key") or "").startswith("fun::")]
+        if not adds:
+            continue
+        nd = [(bi, t) for bi, t in fn.calls() if t.get("callee_name") == "no_dups" and propagated(fn, t)]
+        for i, (bi, t) in enumerate(adds):
+            n_add += 1
+            ikey = "%s@add_types#%d" % (k, i)
+            if any(fn.dominates(mb, bi) and mb != bi for mb, _ in nd):
+                res.inst(ikey, t["sp"]["file"], t["sp"]["line"], "ok", "dominated by no_dups(..)?")
+            else:
+                res.inst(ikey, t["sp"]["file"], t["sp"]["line"], "violation")
+                res.violate(ikey, "binder names are given their types (add_types) without a preceding, propagated duplicate check (no_dups) in %s: "
+                            "duplicate binders are accepted" % k.split(" as ")[0].lstrip("<"), t["sp"]["file"], t["sp"]["line"])
+    if n_add < 1:
+        raise AnalysisError("R-NODUP: no call to add_types found in the checker")
     res.require_floor(5)
     return res
 
@@ -224,7 +256,17 @@ def rule_result(ctx):
             name = t.get("callee_name")
             if (t.get("callee_self_adt") or "").endswith("result::Result") and name in FORBIDDEN_ON_RESULT:
                 aty = fn.local_ty(op_root(t["args"][0])) if op_root(t["args"][0]) is not None else ""
-                if "typing::errors::Error" in aty:
+                kept = False
+                if name == "err" and not t["dest"]["p"]:
+                    # .err() keeps the error and drops only the Ok value: the error is not defused as long as the Option it yields
+                    # is handed on (mapped into an Err, returned, matched) rather than dropped or merely tested
+                    for u in fn.uses().get(t["dest"]["l"], []):
+                        if u["kind"] == "rv" or (u["kind"] == "arg" and u["term"].get("callee_name") not in ("is_some", "is_none", "drop", "is_some_and")):
+                            kept = True
+                if "typing::errors::Error" in aty and kept:
+                    n += 1
+                    res.inst("%s@%s" % (k, name), t["sp"]["file"], t["sp"]["line"], "ok", ".err() handed on: the error is kept")
+                elif "typing::errors::Error" in aty:
                     n += 1
                     ikey = "%s@%s" % (k, name)
                     res.inst(ikey, t["sp"]["file"], t["sp"]["line"], "violation")
@@ -557,24 +599,66 @@ def rule_instance(ctx):
                      "access is the first half of the lookup-or-instantiate idiom (its failure arm instantiates from the template). An "
                      "access without that rejects a well-typed program whose type simply has not been used yet")
     INST = {"lookup_ty_template_for_ctor", "lookup_ty_template_for_dtor", "check_equality", "check_args", "create_instance", "is_instance"}
+    ACCESS = {"lookup_ty_for_ctor", "lookup_ty_for_dtor"}
     TABLES = {"types", "ctors", "dtors"}
+    ELSE = {"or_else", "unwrap_or_else", "or_insert_with", "map_or_else"}
     n = 0
-    for k, f in sorted(fx.fns.items()):
-        if f["crate"] != "fun" or "{promoted" in k or "{closure" in k:
-            continue
-        if k.split("::")[-1] != "check" or not (f.get("impl_trait") or "").endswith("typing::check::Check"):
-            continue
+    memo = {}
+
+    def is_inst_call(t):
+        nm = t.get("callee_name")
+        ck = t.get("callee_key") or ""
+        return (nm in INST and ck.startswith("fun::")) or (nm == "check" and "types::Ty::check" in ck)
+
+    def closure_instantiates(fn, local, depth=0):
+        """the closure held in `local` calls an instantiating function (the failure half of lookup-or-instantiate)"""
+        for d in fn.defs().get(local, []):
+            rv = d.get("rv") or {}
+            if rv.get("k") == "agg" and rv.get("closure"):
+                for b in fx.by_path.get(rv["closure"], []):
+                    if "{promoted" in b["key"]:
+                        continue
+                    for blk in b["blocks"]:
+                        tt = blk["term"]
+                        if tt["k"] == "call" and (is_inst_call(tt) or (helper_key(tt) and analyse(helper_key(tt), 1)[1])):
+                            return True
+            if rv.get("k") in ("use", "cast", "ref") and depth < 4:
+                pl = rv.get("pl") or (rv.get("op") or {}).get("pl")
+                if pl and not pl["p"] and closure_instantiates(fn, pl["l"], depth + 1):
+                    return True
+        return False
+
+    def helper_key(t):
+        k2 = t.get("resolved_key") or (t.get("callee_key") if not t.get("callee_trait") else None)
+        if k2 in fx.fns and fx.fns[k2]["crate"] == "fun" and not (fx.fns[k2].get("impl_trait") or "").endswith("typing::check::Check") \
+                and t.get("callee_name") not in INST | ACCESS and "{closure" not in k2:
+            return k2
+        return None
+
+    def analyse(k, depth):
+        """(sites with verdicts, establishes): `establishes` - every path from the entry of `k` to its return passes a block after which
+        the instance is known to exist"""
+        if k in memo:
+            return memo[k]
+        memo[k] = ([], False)       # recursion guard
+        f = fx.fns[k]
         fn = Fn(f)
         flow = Flow(fn)
         defs = fn.defs()
-        sites = []      # (block, description, result local)
+        sites = []      # (block, description, result local, term)
         establishing = set()
+        idiom = set()
         for bi, t in fn.calls():
             nm = t.get("callee_name")
-            ck = t.get("callee_key") or ""
-            if (nm in INST and ck.startswith("fun::")) or (nm == "check" and "types::Ty::check" in ck):
+            if is_inst_call(t):
                 establishing.add(bi)
                 continue
+            hk = helper_key(t)
+            if hk and depth < 2 and any(kw in hk for kw in ("symbol_table", "typing", "syntax")):
+                sub_sites, est = analyse(hk, depth + 1)
+                if est:
+                    establishing.add(bi)
+                    continue
             desc = None
             if nm in ("get", "contains_key", "index", "get_mut") and t["args"] and (t.get("callee_self_adt") or "").endswith("HashMap"):
                 r = op_root(t["args"][0])
@@ -584,15 +668,23 @@ def rule_instance(ctx):
                         flds |= set(o[2])
                 if flds & TABLES:
                     desc = "symbol_table.%s.%s" % (sorted(flds & TABLES)[0], nm)
-            elif nm in ("lookup_ty_for_ctor", "lookup_ty_for_dtor"):
+            elif nm in ACCESS:
                 desc = nm
             if desc:
                 sites.append((bi, desc, t["dest"]["l"] if t.get("dest") and not t["dest"]["p"] else None, t))
         # success arms of accesses establish existence; failure arm that instantiates = the idiom
-        idiom = set()
         for bi, desc, res_l, t in sites:
             if res_l is None:
                 continue
+            # combinator form of the idiom: access.or_else(|_| instantiate)
+            for u in fn.uses().get(res_l, []):
+                if u["kind"] == "arg" and u["ai"] == 0 and u["term"].get("callee_name") in ELSE and len(u["term"]["args"]) > 1:
+                    cl = op_root(u["term"]["args"][1])
+                    if cl is not None and closure_instantiates(fn, cl):
+                        idiom.add(bi)
+                        for b2, blk in enumerate(f["blocks"]):
+                            if blk["term"] is u["term"]:
+                                establishing.add(b2)
             for b2, blk in enumerate(f["blocks"]):
                 tt = blk["term"]
                 if tt["k"] != "switch":
@@ -632,26 +724,48 @@ def rule_instance(ctx):
                 oth = tt.get("otherwise")
                 if oth is not None and ok_val not in [v for v, _ in (tt.get("targets") or [])]:
                     establishing.add(oth)
-        for bi, desc, res_l, t in sites:
-            n += 1
-            ikey = "%s@%s:%d" % (k, desc, sum(1 for s_ in sites if s_[0] < bi and s_[1] == desc))
-            if bi in idiom:
-                res.inst(ikey, t["sp"]["file"], t["sp"]["line"], "ok", "lookup-or-instantiate idiom")
-                continue
-            # can the site be reached from the entry without passing an establishing block?
-            seen, work, reach = set(), [0], False
+
+        def avoids(target_blocks):
+            """can one of the blocks be reached from the entry without passing an establishing block?"""
+            seen, work = set(), [0]
             while work:
                 x = work.pop()
                 if x in seen or x not in fn.reach:
                     continue
-                if x == bi:
-                    reach = True
-                    break
+                if x in target_blocks:
+                    return True
                 if x in establishing:
                     continue
                 seen.add(x)
                 work.extend(fn.succ[x])
-            if reach:
+            return False
+        out = []
+        for bi, desc, res_l, t in sites:
+            ikey = "%s@%s:%d" % (k, desc, sum(1 for s_ in sites if s_[0] < bi and s_[1] == desc))
+            if bi in idiom:
+                out.append((ikey, t, desc, "idiom"))
+            elif avoids({bi}):
+                out.append((ikey, t, desc, "violation"))
+            else:
+                out.append((ikey, t, desc, "ok"))
+        rets = {b for b in fn.reach if f["blocks"][b]["term"]["k"] == "return"}
+        est = bool(rets) and not avoids(rets) and bool(establishing)
+        memo[k] = (out, est)
+        return memo[k]
+
+    roots = [k for k, f in sorted(fx.fns.items()) if f["crate"] == "fun" and "{promoted" not in k and "{closure" not in k
+             and k.split("::")[-1] == "check" and (f.get("impl_trait") or "").endswith("typing::check::Check")]
+    for k in roots:
+        analyse(k, 0)
+    for k in sorted(memo):
+        # the functions that implement the tables themselves are not clients of them
+        if k.split("::")[-1] in INST | ACCESS | {"build", "combine"}:
+            continue
+        for ikey, t, desc, verdict in memo[k][0]:
+            n += 1
+            if verdict == "idiom":
+                res.inst(ikey, t["sp"]["file"], t["sp"]["line"], "ok", "lookup-or-instantiate idiom")
+            elif verdict == "violation":
                 res.inst(ikey, t["sp"]["file"], t["sp"]["line"], "violation")
                 res.violate(ikey, "%s consults %s (line %d) on a path on which nothing has created or found the instance of the type: a "
                             "well-typed program whose type has not been instantiated yet is rejected as `undefined`" % (k.split(" as ")[0].lstrip("<").split("::")[-1], desc, t["sp"]["line"]),
